@@ -20,6 +20,10 @@ from tables import TranslatorError
 OUT_NAME = "T_C15.v"
 DIRS = ["visit", "core/writers", "emitters", "emit", "helpers", "generator", "context", "types"]
 TEXT_WORDS = ("desc", "summary", "title", "default")
+FLOW_ATTRS = {"description", "summary", "title", "default", "enum", "example", "examples", "external_docs", "version", "tags"}
+FLOW_PARAMS = {"description", "summary", "title", "desc", "text", "docstring", "comment", "default", "field_desc"}
+FLOW_SINKS = {"write_line", "write_block", "append", "extend", "join", "write_wrapped_line", "write_wrapped_docstring_line",
+              "append_wrapped", "wrap_and_append", "insert"}
 LOG_FUNCS = {"debug", "info", "warning", "error", "exception", "critical", "warn"}
 
 MODELLED = {1: "enum_value", 2: "meta_key", 3: "disc_prop", 4: "disc_value", 5: "query_key", 6: "header_key", 7: "media_type",
@@ -125,6 +129,31 @@ KNOWN: dict[tuple[str, str, str], int] = {
     ("types/resolvers/schema_resolver.py", "resolve_schema", " Reference: '{schema_details['ref']}'."): 0,
     ("types/services/type_service.py", "_format_resolved_type", '"{python_type} | None"'): 0,               # whole annotation quoted (forward reference)
     ("types/services/type_service.py", "_format_resolved_type", '"{python_type}"'): 0,
+    # ---- data-flow sites (a local assigned from spec text handed to a code sink without an f-string)
+    ("visit/client_visitor.py", "visit", "flow: tag_candidates[key].append(tag)"): 0,                       # tag de-duplication table; the tag reaches code at site 13
+    ("visit/client_visitor.py", "_generate_client_implementation", "flow: docstring_lines.append(escape_docstring_text("): 15,
+    ("visit/client_visitor.py", "_generate_client_implementation", "flow: docstring_lines.append(desc_clean)"): 16,
+    ("visit/docs_visitor.py", "visit", "flow: tag_writer.write_line(desc)"): 0,                               # markdown
+    ("visit/endpoint/generators/docstring_generator.py", "_wrap_docstring", "flow: '\\n'.join(wrapped)"): 12,   # docstring helper (textwrap)
+    ("visit/endpoint/generators/docstring_generator.py", "generate_docstring", "flow: args.append("): 12,      # DocumentationBlock arguments
+    ("visit/endpoint/generators/docstring_generator.py", "generate_docstring", "flow: raises.append("): 12,
+    ("visit/endpoint/generators/docstring_generator.py", "generate_docstring", "flow: writer.write_line(line)"): 12,   # lines of render_docstring
+    ("visit/endpoint/generators/endpoint_method_generator.py", "_generate_implementation_method", "flow: writer.write_line(escape_docstring_text("): 14,
+    ("visit/endpoint/processors/parameter_processor.py", "process_parameters", "flow: ordered_params.append(param_info)"): 0,   # carries the parameter default, never rendered
+    ("visit/model/dataclass_generator.py", "generate", "flow: fields_data.append("): 10,                       # (name, type, default expr [8/17], description [10, 12]) for render_dataclass
+    ("visit/model/enum_generator.py", "generate", "flow: values.append((unique_member_name, member_value))"): 1,
+    ("core/writers/code_writer.py", "write_wrapped_line", "flow: self.writer.append_wrapped(text)"): 0,      # writer primitive: its callers are the sites (sinks of this scan)
+    ("core/writers/code_writer.py", "write_wrapped_docstring_line", "flow: self.writer.append_wrapped(text)"): 0,
+    ("core/writers/documentation_writer.py", "wrap", "flow: writer.append_wrapped(text)"): 12,
+    ("core/writers/documentation_writer.py", "render_short_prefix_arg", "flow: writer.append_wrapped(desc)"): 12,
+    ("core/writers/documentation_writer.py", "render_long_prefix_arg", "flow: writer.append_wrapped(desc)"): 12,
+    ("core/writers/documentation_writer.py", "render_docstring", "flow: lines.extend(self.formatter.wrap(doc."): 12,
+    ("core/writers/line_writer.py", "wrap_and_append", "flow: self.append(line)"): 0,                         # writer primitive
+    ("core/writers/line_writer.py", "append_wrapped_at_column", "flow: "): 0,                                 # writer primitive
+    (R, "render_enum", "flow: writer.write_line(line)"): 12,                                                 # lines of render_docstring
+    (R, "render_dataclass", "flow: writer.write_line(line)"): 10,                                            # docstring lines (12) and field lines with the comment (10)
+    ("emitters/endpoints_emitter.py", "emit", "flow: "): 0,                                                  # tags -> class / module names, file paths (C20, C10)
+    ("helpers/endpoint_utils.py", "_infer_type_from_path", "flow: ''.join("): 0,                             # identifier derivation
     # ---- docstring sites escaped with documentation_writer.escape_docstring_text
     ("visit/client_visitor.py", "_generate_client_implementation", "escaper: docstring_lines.append(escape_docstring_text(f'{spec.title} (version {spec.version})'))"): 15,
     ("visit/client_visitor.py", "_generate_client_implementation", "escaper: writer.write_line(f"): 13,
@@ -234,6 +263,52 @@ def scan(src_root: Path) -> tuple[list[tuple[str, int, str, str]], list[tuple[st
                                and c.func.attr == "write_line" and len(c.args) == 1 and isinstance(c.args[0], ast.Constant)
                                and c.args[0].value == '"""')
                 regions[fn.name] = [(marks[i], marks[i + 1]) for i in range(0, len(marks) - 1, 2)]
+
+        # ---- simple intra-function data flow: a local that was assigned from spec text (an attribute such as
+        # .description/.summary/.title/.default/.enum/.example, a parameter named like that, a textwrap result, or another
+        # tainted local) and is then handed to a code sink (write_line / write_block / append / extend / join / write_wrapped*)
+        # without being interpolated in an f-string (those are covered by the rules below) is a flow site.
+        for fn in ast.walk(mod):
+            if not isinstance(fn, (ast.FunctionDef, ast.AsyncFunctionDef)):
+                continue
+            tainted: set[str] = {a.arg for a in fn.args.args + fn.args.kwonlyargs if a.arg.lower() in FLOW_PARAMS}
+
+            def is_text(e: ast.AST) -> bool:
+                for n in ast.walk(e):
+                    if isinstance(n, ast.Attribute) and n.attr in FLOW_ATTRS:
+                        return True
+                    if isinstance(n, ast.Name) and n.id in tainted:
+                        return True
+                    if isinstance(n, ast.Call) and isinstance(n.func, ast.Attribute) and isinstance(n.func.value, ast.Name) \
+                            and n.func.value.id == "textwrap":
+                        return True
+                return False
+            for _ in range(4):   # fixpoint over the (few) assignments of one function
+                for st in ast.walk(fn):
+                    tg: list[ast.AST] = []
+                    val = None
+                    if isinstance(st, ast.Assign):
+                        tg, val = st.targets, st.value
+                    elif isinstance(st, (ast.AnnAssign, ast.AugAssign)) and st.value is not None:
+                        tg, val = [st.target], st.value
+                    elif isinstance(st, ast.For):
+                        tg, val = [st.target], st.iter
+                    if val is not None and is_text(val):
+                        for t_ in tg:
+                            for n in ast.walk(t_):
+                                if isinstance(n, ast.Name):
+                                    tainted.add(n.id)
+            for call in ast.walk(fn):
+                if not (isinstance(call, ast.Call) and isinstance(call.func, ast.Attribute) and call.func.attr in FLOW_SINKS):
+                    continue
+                if excluded(call) or func_of(call) != fn.name:
+                    continue
+                for a in call.args:
+                    if isinstance(a, ast.JoinedStr):
+                        continue            # f-string argument: handled by the f-string rules (quote / # / docstring region / text words)
+                    if is_text(a):
+                        cands.append((rel, call.lineno, fn.name, "flow: " + ast.unparse(call)[:110]))
+                        break
 
         # callers of the range-aware raise helper must pass a generator constant as the message (it is put between quotes)
         for node in ast.walk(mod):
